@@ -618,7 +618,9 @@ func c04NewRouters(cfg *v2.RouterConfiguration) (rs types.Routers, err error, pa
 // Domain alphabet: the DESIGN list plus two further wildcard-host+wildcard-port
 // domains, so that every wildcard class (no port, exact port, any port) has
 // suffixes of different lengths coexisting in one configuration.
-var c04Domains = []string{"*", "a.com", "A.com", "a.com:80", "a.com:*", "*.com", "*.a.com", "*.b.a.com", "*:80", "*.com:80", "*.com:*", "b.com", "*.a.com:*", "*.b.a.com:*"}
+var c04Domains = []string{"*", "a.com", "A.com", "a.com:80", "a.com:*", "*.com", "*.a.com", "*.b.a.com", "*:80", "*.com:80", "*.com:*", "b.com", "*.a.com:*", "*.b.a.com:*",
+	// wildcard domains written in mixed case (compared case-insensitively like exact ones; seeded change C04-r6)
+	"*.A.Com", "*.B.a.COM:*"}
 
 // Host values: the DESIGN list, upper-case/ported variants of it, three
 // syntactically invalid values, and hosts not longer than a configured suffix.
